@@ -249,6 +249,10 @@ func runC01(c *Ctx) {
 		}
 		var live []c01liveItem
 		defer func() {
+			// let goroutines started by the replayed calls run BEFORE the node is stopped (stopping cancels their context):
+			// a panic in one of them is what a crash replay is looking for
+			c.Out.Flush()
+			time.Sleep(1500 * time.Millisecond)
 			if len(live) > 0 {
 				runC01LiveList(c, 0, live)
 			}
